@@ -264,6 +264,9 @@ func genConformance(f string) GenFn {
 
 func genC07(f string) GenFn {
 	return func(r *Rand, tier string, emit func(string)) {
+		if f == "json" {
+			emit("escsets x")
+		}
 		genEncBoundaries(f)(r, tier, emit)
 		n := tierN(tier, 3000, 60000)
 		for i := 0; i < n; i++ {
